@@ -240,7 +240,11 @@ Record msg : Type := mkMsg {
   m_id : N; m_qr : bool; m_tc : bool; m_rcode : N;
   m_qd : N; m_an : N; m_ns : N; m_ar : N;
   m_qs : option (list N);
-  m_ans : option (list (option rr)) }.
+  m_ans : option (list (option rr));
+  (* an edns-tcp-keepalive option reachable through Message::opt(): None = no such
+     option, Some None = option without a timeout, Some (Some v) = timeout v in
+     units of 100 ms *)
+  m_ka : option (option N) }.
 
 Record req : Type := mkReq { r_id : N; r_qs : list N }.
 
@@ -371,7 +375,9 @@ Record sstate : Type := mkSt {
   st_q : queries entry;
   st_conn : conn;
   st_sent : list (N * N * list N);        (* caller, ID on the wire, questions *)
-  st_log : list (N * bool * dlv) }.       (* caller, multi?, what it was handed *)
+  st_log : list (N * bool * dlv);         (* caller, multi?, what it was handed *)
+  st_idle_zero : bool;                    (* status.idle_timeout.is_zero() *)
+  st_idle : bool }.                       (* status.state is ConnState::Idle(_) *)
 
 Inductive sevent : Type :=
 | ESubmit (caller : N) (qs : list N) (multi : bool) (unconvertible : bool) (x0 : xfr)
@@ -390,49 +396,65 @@ Section Demux.
 (* check_stream of stream.rs (XFR end detection), left abstract:
    entry, reply -> (eof, new xfr state, is_answer) *)
 Variable check_stream : entry -> msg -> bool * xfr * bool.
-Variable idle_zero : bool.     (* status.idle_timeout.is_zero() *)
+Variable idle_zero : bool.     (* config.idle_timeout.is_zero() at the start *)
 
-Definition after_reply (q : queries entry) (c : conn) : conn :=
+Definition after_reply (iz : bool) (q : queries entry) (c : conn) : conn :=
   match c with
-  | COpen => if q_is_empty q && idle_zero then CDown 10 else COpen
+  | COpen => if q_is_empty q && iz then CDown 10 else COpen
   | d => d
   end.
 
+(* handle_opts / handle_keepalive: a keepalive option with a timeout replaces
+   status.idle_timeout (v * 100 ms); without a timeout it changes nothing *)
+Definition keepalive_idle_zero (iz : bool) (ka : option (option N)) : bool :=
+  match ka with
+  | Some (Some v) => keepalive_units_ms * v =? 0
+  | _ => iz
+  end.
+
+(* The loop head closes an Idle connection whose idle timeout is (has become)
+   zero: elapsed >= 0 holds at once.  Non-zero idle timeouts expiring by time
+   are not part of the event model (see run_tick). *)
 Definition s_step (s : sstate) (ev : sevent) : outcome sstate :=
   match ev with
   | ESubmit c qs multi bad x0 =>
       match st_conn s with
-      | CDown e => Ok (mkSt (st_q s) (st_conn s) (st_sent s) (st_log s ++ [(c, multi, DError e)]))
+      | CDown e => Ok (mkSt (st_q s) (st_conn s) (st_sent s) (st_log s ++ [(c, multi, DError e)]) (st_idle_zero s) (st_idle s))
       | COpen =>
+          (* insert_req: Active or Idle -> Active(Some(now)) *)
           do (q', oi) <- q_insert (st_q s) (mkEntry c qs multi x0 (is_axfr_init x0));
           match oi with
-          | None => Ok (mkSt q' COpen (st_sent s) (st_log s ++ [(c, multi, DError 11)]))
+          | None => Ok (mkSt q' COpen (st_sent s) (st_log s ++ [(c, multi, DError 11)]) (st_idle_zero s) false)
           | Some idx =>
               if bad then
                 let '(q'', _) := q_try_remove q' idx in
-                Ok (mkSt q'' COpen (st_sent s) (st_log s ++ [(c, multi, DError 12)]))
-              else Ok (mkSt q' COpen (st_sent s ++ [(c, idx, qs)]) (st_log s))
+                Ok (mkSt q'' COpen (st_sent s) (st_log s ++ [(c, multi, DError 12)]) (st_idle_zero s) false)
+              else Ok (mkSt q' COpen (st_sent s ++ [(c, idx, qs)]) (st_log s) (st_idle_zero s) false)
           end
       end
   | EReply m =>
       match st_conn s with
       | CDown _ => Ok s            (* the run loop has ended *)
       | COpen =>
+          (* the options are handled before the ID is looked up *)
+          let iz := keepalive_idle_zero (st_idle_zero s) (m_ka m) in
           let id := m_id m in
           match q_try_remove (st_q s) id with
-          | (_, None) => Ok s
+          | (_, None) =>
+              (* nobody waits for this ID: only the options took effect *)
+              Ok (mkSt (st_q s) (if st_idle s && iz then CDown 10 else COpen) (st_sent s) (st_log s) iz (st_idle s))
           | (q', Some e) =>
               if e_multi e then
                 let '(eof, x, isans) := check_stream e m in
                 let log' := st_log s ++ [(e_caller e, true, if isans then DAnswer m else DWrong)] in
                 if eof then
-                  Ok (mkSt q' (after_reply q' COpen) (st_sent s) (log' ++ [(e_caller e, true, DEof)]))
+                  Ok (mkSt q' (after_reply iz q' COpen) (st_sent s) (log' ++ [(e_caller e, true, DEof)]) iz (q_is_empty q'))
                 else
                   do q'' <- q_insert_at q' id (mkEntry (e_caller e) (e_qs e) true x (e_axfr e));
-                  Ok (mkSt q'' (after_reply q'' COpen) (st_sent s) log')
+                  Ok (mkSt q'' (after_reply iz q'' COpen) (st_sent s) log' iz (q_is_empty q''))
               else
                 let d := if is_answer (mkReq id (e_qs e)) m then DAnswer m else DWrong in
-                Ok (mkSt q' (after_reply q' COpen) (st_sent s) (st_log s ++ [(e_caller e, false, d)]))
+                Ok (mkSt q' (after_reply iz q' COpen) (st_sent s) (st_log s ++ [(e_caller e, false, d)]) iz (q_is_empty q'))
           end
       end
   | EFail err =>
@@ -441,11 +463,11 @@ Definition s_step (s : sstate) (ev : sevent) : outcome sstate :=
       | COpen =>
           let '(q', l) := q_drain (st_q s) in
           Ok (mkSt q' (CDown err) (st_sent s)
-                   (st_log s ++ map (fun e => (e_caller e, e_multi e, DError err)) l))
+                   (st_log s ++ map (fun e => (e_caller e, e_multi e, DError err)) l) (st_idle_zero s) false)
       end
   end.
 
-Definition s_init : sstate := mkSt q_new COpen [] [].
+Definition s_init : sstate := mkSt q_new COpen [] [] idle_zero false.
 Definition s_run (evs : list sevent) : outcome sstate :=
   fold_left (fun acc ev => do s <- acc; s_step s ev) evs (Ok s_init).
 End Demux.
@@ -569,3 +591,156 @@ Definition c15_demux (idle_zero : bool) (evs : list sevent) : outcome sstate :=
   s_run check_stream_m idle_zero evs.
 Definition c15_pending (c : N) (s : sstate) : bool :=
   existsb (fun e => e_caller e =? c) (flatten_opt (q_vec (st_q s))).
+
+(* ---- the connection timers at the head of Transport::run's loop (ms) ---- *)
+Inductive tstate : Type :=
+| TActive (start : option N) | TIdle (since : N) | TIdleTimeout | TReadTimeout.
+
+(* the match on status.state that opens every loop iteration *)
+Definition run_tick (resp idle : N) (st : tstate) (now : N) : tstate :=
+  match st with
+  | TActive (Some start) => if run_timeout_fires (now - start) resp then TReadTimeout else st
+  | TIdle since => if run_idle_fires (now - since) idle then TIdleTimeout else st
+  | _ => st
+  end.
+
+(* how long the loop then sleeps when nothing else happens *)
+Definition run_sleep (resp idle : N) (st : tstate) (now : N) : N :=
+  match st with
+  | TActive (Some start) => resp - (now - start)
+  | TIdle since => idle - (now - since)
+  | _ => resp
+  end.
+
+(* demux_reply once the last outstanding request is gone *)
+Definition go_idle (idle now : N) : tstate := if idle =? 0 then TIdleTimeout else TIdle now.
+
+(* handle_keepalive on status.idle_timeout *)
+Definition keepalive_idle (idle : N) (ka : option (option N)) : N :=
+  match ka with Some (Some v) => keepalive_units_ms * v | _ => idle end.
+
+(* ======================================================================
+   Part 3: connection management above the stream transport.
+
+   ---- multi_stream::Transport::run, the NewConn command ----
+   conn_state: no connection / a connection (an abstract handle) / the last
+   connect failed (retries, the time of the failure, the back-off chosen);
+   conn_id counts connections.  Times in ms. *)
+Inductive mconn : Type := MNone | MSome (c : N) | MErr (retries timer timeout : N).
+Record mstate : Type := mkMs { ms_conn : mconn; ms_id : N }.
+Inductive mreply : Type :=
+| MReplyOk (id c : N)     (* ChanResp::Ok { id, conn } *)
+| MReplyErr               (* ChanResp::Err(error) *)
+| MConnect.               (* a connect() is started; the reply follows in ms_connected *)
+
+(* ReqCmd::NewConn(opt_id, chan): opt_id is the id of the connection the
+   requester found unusable *)
+Definition ms_newconn (s : mstate) (opt_id : option N) (now : N) : mstate * mreply :=
+  match (match ms_conn s with
+         | MErr _ timer timeout => ms_backoff_active (now - timer) timeout
+         | _ => false
+         end) with
+  | true => (s, MReplyErr)
+  | false =>
+      let s1 := match opt_id with
+                | Some id => if ms_stale id (ms_id s) then mkMs MNone (ms_id s + ms_id_inc) else s
+                | None => s
+                end in
+      match ms_conn s1 with
+      | MSome c => (s1, MReplyOk (ms_id s1) c)
+      | _ => (s1, MConnect)
+      end
+  end.
+
+(* the connect() started by MConnect finishes: Some c = a stream, None = error;
+   backoff = the value retry_time drew *)
+Definition ms_connected (s : mstate) (res : option N) (now backoff : N) : outcome (mstate * mreply) :=
+  match res with
+  | Some c => Ok (mkMs (MSome c) (ms_id s), MReplyOk (ms_id s) c)
+  | None =>
+      match ms_conn s with
+      | MNone => Ok (mkMs (MErr 0 now backoff) (ms_id s), MReplyErr)
+      | MErr retries _ _ => Ok (mkMs (MErr (retries + 1) now backoff) (ms_id s), MReplyErr)
+      | MSome _ => Panic 4       (* panic!("Illegal Some state") *)
+      end
+  end.
+
+(* ---- redundant::Query::get_response: which result is handed to the caller ----
+   Upstreams are probed in order; the next one is started when the current one
+   finishes with a deferrable result or its estimated response time passes.
+   Results: a reply that is returned at once, a reply that is deferred (REFUSED
+   / SERVFAIL when configured), a transport error. *)
+Inductive ures : Type := UGood (m : N) | USkip (m : N) | UErr (e : N).
+Inductive revent : Type := RFin (i : N) (r : ures) | RProbeTimeout.
+Inductive rphase : Type := RProbe (ind : N) | RWait.
+Record rstate : Type := mkR {
+  r_phase : rphase;
+  r_out : list N;            (* upstreams started and not finished *)
+  r_dreply : option N;       (* deferred_reply *)
+  r_derr : option N }.       (* deferred_transport_error *)
+Inductive rfinal : Type := RReturnOk (m : N) | RReturnErr (e : N).
+
+Definition first_some (a : option N) (b : N) : option N := match a with Some x => Some x | None => Some b end.
+Fixpoint remove_n (i : N) (l : list N) : list N :=
+  match l with [] => [] | x :: r => if x =? i then r else x :: remove_n i r end.
+
+(* move on from upstream ind: start the next one, or wait for what is outstanding *)
+Definition r_next (n ind : N) (out : list N) : rphase * list N :=
+  if ind + 1 <? n then (RProbe (ind + 1), out ++ [ind + 1]) else (RWait, out).
+
+(* the check at the head of the Wait loop *)
+Definition r_settle (s : rstate) : outcome (rstate + rfinal) :=
+  match r_phase s, r_out s with
+  | RWait, [] =>
+      match (if red_prefers_reply then r_dreply s else None), r_derr s, r_dreply s with
+      | Some m, _, _ => Ok (inr (RReturnOk m))
+      | None, Some e, _ => Ok (inr (RReturnErr e))
+      | None, None, Some m => Ok (inr (RReturnOk m))
+      | None, None, None => Panic 5   (* "either deferred_reply or deferred_error should be present" *)
+      end
+  | _, _ => Ok (inl s)
+  end.
+
+Definition r_step (defer_err : bool) (n : N) (s : rstate) (ev : revent) : outcome (rstate + rfinal) :=
+  match ev with
+  | RFin i r =>
+      let out := remove_n i (r_out s) in
+      match r with
+      | UGood m => Ok (inr (RReturnOk m))
+      | UErr e =>
+          if defer_err then
+            let d := first_some (r_derr s) e in
+            match r_phase s with
+            | RProbe ind =>
+                if i =? ind then let '(ph, out') := r_next n ind out in r_settle (mkR ph out' (r_dreply s) d)
+                else Ok (inl (mkR (RProbe ind) out (r_dreply s) d))
+            | RWait => r_settle (mkR RWait out (r_dreply s) d)
+            end
+          else Ok (inr (RReturnErr e))
+      | USkip m =>
+          let d := first_some (r_dreply s) m in
+          match r_phase s with
+          | RProbe ind =>
+              if i =? ind then let '(ph, out') := r_next n ind out in r_settle (mkR ph out' d (r_derr s))
+              else Ok (inl (mkR (RProbe ind) out d (r_derr s)))
+          | RWait => r_settle (mkR RWait out d (r_derr s))
+          end
+      end
+  | RProbeTimeout =>
+      match r_phase s with
+      | RProbe ind => let '(ph, out') := r_next n ind (r_out s) in Ok (inl (mkR ph out' (r_dreply s) (r_derr s)))
+      | RWait => Ok (inl s)
+      end
+  end.
+
+Definition r_init : rstate := mkR (RProbe 0) [0] None None.
+
+Fixpoint r_run (defer_err : bool) (n : N) (s : rstate) (evs : list revent) : outcome (rstate + rfinal) :=
+  match evs with
+  | [] => Ok (inl s)
+  | ev :: rest =>
+      match r_step defer_err n s ev with
+      | Ok (inl s') => r_run defer_err n s' rest
+      | other => other
+      end
+  end.
